@@ -272,6 +272,14 @@ pub enum Family {
     BinTree,
     /// star with centre last in insertion order (edges point to lower indices too)
     StarRev,
+    /// two fans of different depth: p1 -> c1..ck ; p2 -> m -> d1..dk (inserted p2, m, p1, c.., d..)
+    FanPair,
+    /// comb: spine s0 -> s1 -> ... -> sk, every spine node with a pendant leaf
+    Comb,
+    /// complete DAG on k nodes next to an independent chain of k nodes
+    CompletePlusChain,
+    /// w-wide layered graph with k layers next to an independent chain of k nodes
+    LayeredPlusChain(usize),
 }
 
 /// Returns (n, edges) of the family member with parameter k.
@@ -324,10 +332,60 @@ pub fn family(f: Family, k: usize) -> (usize, Vec<(usize, usize)>) {
             // centre is node k (last); leaves 0..k depend on it: k -> i
             (k + 1, (0..k).map(|i| (k, i)).collect())
         }
+        Family::FanPair => {
+            // 0 = p2, 1 = m, 2 = p1, 3..3+k = c, 3+k..3+2k = d
+            let mut e = vec![(0, 1)];
+            for i in 0..k {
+                e.push((2, 3 + i));
+                e.push((1, 3 + k + i));
+            }
+            (3 + 2 * k, e)
+        }
+        Family::CompletePlusChain => {
+            let mut e: Vec<(usize, usize)> = (0..k).flat_map(|i| (i + 1..k).map(move |j| (i, j))).collect();
+            e.extend((1..k).map(|i| (k + i - 1, k + i)));
+            (2 * k, e)
+        }
+        Family::LayeredPlusChain(w) => {
+            let (n0, mut e) = family(Family::Layered(w), k);
+            e.extend((1..k).map(|i| (n0 + i - 1, n0 + i)));
+            (n0 + k, e)
+        }
+        Family::Comb => {
+            // spine 0..=k, leaf of spine node i is k+1+i
+            let mut e = vec![];
+            for i in 0..=k {
+                if i < k {
+                    e.push((i, i + 1));
+                }
+                e.push((i, k + 1 + i));
+            }
+            (2 * k + 2, e)
+        }
     }
 }
 
 pub fn family_spec(f: Family, k: usize) -> Spec {
     let (n, e) = family(f, k);
     Spec::plain(n, &e)
+}
+
+/// Every DAG on n nodes whose labels are a topological order (edge subsets of {i -> j : i < j}):
+/// 2^(n(n-1)/2) shapes covering every isomorphism class. Odd-numbered shapes are relabelled
+/// i -> n-1-i so that insertion order is the reverse of a topological order.
+pub fn topo_dag_specs(n: usize) -> Vec<Spec> {
+    let pairs: Vec<(usize, usize)> = (0..n).flat_map(|a| (a + 1..n).map(move |b| (a, b))).collect();
+    assert!(pairs.len() <= 24);
+    (0u32..1 << pairs.len())
+        .map(|mask| {
+            let flip = mask % 2 == 1;
+            let e: Vec<(usize, usize)> = pairs
+                .iter()
+                .enumerate()
+                .filter(|(i, _)| mask >> i & 1 == 1)
+                .map(|(_, &(a, b))| if flip { (n - 1 - a, n - 1 - b) } else { (a, b) })
+                .collect();
+            Spec::plain(n, &e)
+        })
+        .collect()
 }
